@@ -202,6 +202,34 @@ impl Encode for ChunkEncoder {
     }
 }
 
+/// Writes the first `partial` bytes of the message and then fails, on scripted calls; otherwise the whole message.
+#[derive(Debug)]
+pub struct FailingEncoder {
+    pub fail: Vec<Option<usize>>,
+    pub calls: AtomicUsize,
+}
+
+impl Encode for FailingEncoder {
+    fn encode(&self, w: &mut dyn log4rs::encode::Write, record: &log::Record) -> anyhow::Result<()> {
+        let msg = format!("{}", record.args());
+        let i = self.calls.fetch_add(1, Ordering::SeqCst);
+        match self.fail.get(i).copied().flatten() {
+            Some(k) => {
+                let mut k = k.min(msg.len());
+                while !msg.is_char_boundary(k) {
+                    k -= 1;
+                }
+                w.write_all(&msg.as_bytes()[..k])?;
+                anyhow::bail!("verif: scripted encoder failure after {} bytes", k)
+            }
+            None => {
+                w.write_all(msg.as_bytes())?;
+                Ok(())
+            }
+        }
+    }
+}
+
 pub fn make_encoder(chunks: &Option<Vec<usize>>) -> Box<dyn Encode> {
     match chunks {
         None => Box::new(PatternEncoder::new("{m}")),
